@@ -1,0 +1,221 @@
+//go:build verif
+// +build verif
+
+// Contracts for package utils, read by the verification-condition generator in /verif (build tag verif only).
+// No executable code: a package clause, imports (so that contract text can name types) and //@ lines.
+package utils
+
+import (
+	"container/heap"
+)
+
+var _ heap.Interface
+
+// ---------------------------------------------------------------------------------------------
+// C10: routing function
+
+//@ func utils.UuidMod
+//@ props C10
+//@ arith bv
+//@ pure
+//@ requires [modnonzero] mod != 0
+//@ ensures [range] ret < mod
+
+// ---------------------------------------------------------------------------------------------
+// C19: priority queues. container/heap is verified in place (its SSA is loaded like any other code).
+
+//@ iface container/heap.Interface in *minPriorityQueue, *maxPriorityQueue
+
+//@ spec isMin(h heap.Interface) bool = istype(h, *minPriorityQueue)
+//@ spec isMax(h heap.Interface) bool = istype(h, *maxPriorityQueue)
+//@ spec qs(h heap.Interface) []*PriorityQueueItem = ite(isMin(h), *h.(*minPriorityQueue), *h.(*maxPriorityQueue))
+//@ spec prio(h heap.Interface, i int) float32 = qs(h)[i].priority
+//@ spec hless(h heap.Interface, i int, j int) bool = ite(isMin(h), prio(h, i) < prio(h, j), prio(h, j) < prio(h, i))
+//@ spec edgeOK(h heap.Interface, c int) bool = !hless(h, c, (c-1)/2)
+//@ spec heapOK(h heap.Interface, n int) bool = forall c int :: 0 < c && c < n ==> edgeOK(h, c)
+//@ spec itemsOK(h heap.Interface, n int) bool = forall c int :: 0 <= c && c < n ==> qs(h)[c] != nil && !isnan(qs(h)[c].priority)
+//@ spec hdyn(h heap.Interface) bool = (isMin(h) || isMax(h)) && h.pay != 0
+//@ spec sameTail(h heap.Interface, n int) bool = true
+
+//@ spec wfh(h heap.Interface) bool = hdyn(h) && itemsOK(h, len(qs(h))) && heapOK(h, len(qs(h)))
+//@ spec wfpq(pq *priorityQueue) bool = wfh(pq.queue)
+
+// sift-down: edges whose parent is below i0 are fine on entry; on exit every edge with parent >= i0 is fine.
+//@ func container/heap.down
+//@ props C19
+//@ trust floatorder
+//@ requires [dyn] hdyn(h)
+//@ requires [range] 0 <= i0 && i0 <= n && n <= len(qs(h))
+//@ requires [items] itemsOK(h, len(qs(h)))
+//@ requires [below] forall c int :: 0 < c && c < n && (c-1)/2 > i0 ==> edgeOK(h, c)
+//@ ensures [heap] forall c int :: 0 < c && c < n && (c-1)/2 >= i0 ==> edgeOK(h, c)
+//@ ensures [items] itemsOK(h, len(qs(h)))
+//@ ensures [tail] forall k int :: n <= k ==> qs(h)[k] == old(qs(h)[k])
+//@ ensures [above] forall k int :: k < i0 ==> qs(h)[k] == old(qs(h)[k])
+//@ modifies mem(qs(h))
+//@ writesvia mem_ PriorityQueue).Swap
+//@ loop 1
+//@ invariant [range] i00 <= i && i <= n
+//@ invariant [items] itemsOK(h, len(qs(h)))
+//@ invariant [rest] forall c int :: 0 < c && c < n && (c-1)/2 >= i00 && (c-1)/2 != i ==> edgeOK(h, c)
+//@ invariant [grand] i > i00 ==> forall c int :: 0 < c && c < n && (c-1)/2 == i ==> !hless(h, c, (i-1)/2)
+//@ invariant [tail] forall k int :: n <= k ==> qs(h)[k] == old(qs(h)[k])
+//@ invariant [above] forall k int :: k < i00 ==> qs(h)[k] == old(qs(h)[k])
+
+// sift-up: every edge except (j, parent(j)) is fine, and the children of j are not less than j's parent.
+//@ func container/heap.up
+//@ props C19
+//@ trust floatorder
+//@ requires [dyn] hdyn(h)
+//@ requires [range] 0 <= j && j < len(qs(h))
+//@ requires [items] itemsOK(h, len(qs(h)))
+//@ requires [rest] forall c int :: 0 < c && c < len(qs(h)) && c != j ==> edgeOK(h, c)
+//@ requires [grand] j > 0 ==> forall c int :: 0 < c && c < len(qs(h)) && (c-1)/2 == j ==> !hless(h, c, (j-1)/2)
+//@ ensures [heap] heapOK(h, len(qs(h)))
+//@ ensures [items] itemsOK(h, len(qs(h)))
+//@ ensures [outside] forall k int :: k > j ==> qs(h)[k] == old(qs(h)[k])
+//@ modifies mem(qs(h))
+//@ writesvia mem_ PriorityQueue).Swap
+//@ loop 1
+//@ invariant [range] 0 <= j && j <= j0
+//@ invariant [items] itemsOK(h, len(qs(h)))
+//@ invariant [rest] forall c int :: 0 < c && c < len(qs(h)) && c != j ==> edgeOK(h, c)
+//@ invariant [grand] j > 0 ==> forall c int :: 0 < c && c < len(qs(h)) && (c-1)/2 == j ==> !hless(h, c, (j-1)/2)
+//@ invariant [outside] forall k int :: k > j0 ==> qs(h)[k] == old(qs(h)[k])
+
+//@ func container/heap.Init
+//@ props C19
+//@ requires [dyn] hdyn(h)
+//@ requires [items] itemsOK(h, len(qs(h)))
+//@ ensures [heap] wfh(h)
+//@ ensures [outside] forall k int :: k >= len(qs(h)) ==> qs(h)[k] == old(qs(h)[k])
+//@ modifies mem(qs(h))
+//@ writesvia mem_ PriorityQueue).Swap
+//@ loop 1
+//@ invariant [range] 0 - 1 <= i && i <= len(qs(h)) / 2 - 1
+//@ invariant [items] itemsOK(h, len(qs(h)))
+//@ invariant [below] forall c int :: 0 < c && c < len(qs(h)) && (c-1)/2 > i ==> edgeOK(h, c)
+//@ invariant [outside] forall k int :: k >= len(qs(h)) ==> qs(h)[k] == old(qs(h)[k])
+
+//@ func container/heap.Push
+//@ props C19
+//@ requires [wf] wfh(h)
+//@ requires [item] istype(x, *PriorityQueueItem) && x.pay != 0 && !isnan(x.(*PriorityQueueItem).priority)
+//@ ensures [wf] wfh(h)
+//@ ensures [len] len(qs(h)) == old(len(qs(h))) + 1
+//@ ensures [fresh-or-inplace] qs(h).ref == old(qs(h).ref) || fresh(qs(h))
+//@ ensures [inplace-window] qs(h).ref == old(qs(h).ref) ==> qs(h).off == old(qs(h).off) && forall k int :: k > old(len(qs(h))) ==> qs(h)[k] == old(qs(h)[k])
+//@ modifies cell(h.(*minPriorityQueue)), cell(h.(*maxPriorityQueue)), mem(qs(h))
+
+//@ func container/heap.Pop
+//@ props C19
+//@ requires [wf] wfh(h)
+//@ requires [nonempty] len(qs(h)) > 0
+//@ ensures [wf] wfh(h)
+//@ ensures [len] len(qs(h)) == old(len(qs(h))) - 1
+//@ ensures [root] istype(ret, *PriorityQueueItem) && ret.pay == old(qs(h)[0])
+//@ ensures [samearray] qs(h).ref == old(qs(h).ref) && qs(h).off == old(qs(h).off)
+//@ ensures [outside] forall k int :: k >= old(len(qs(h))) ==> qs(h)[k] == old(qs(h)[k])
+//@ modifies cell(h.(*minPriorityQueue)), cell(h.(*maxPriorityQueue)), mem(qs(h))
+
+// the root of a heap is extremal (strong induction on k; the step is discharged by SMT)
+//@ lemma rootIsExtremal(h heap.Interface, n int, k int)
+//@ props C19
+//@ trust floatorder
+//@ induction k
+//@ requires hdyn(h) && 0 <= n && n <= len(qs(h)) && itemsOK(h, n) && heapOK(h, n)
+//@ requires 0 <= k && k < n
+//@ ensures !hless(h, k, 0)
+
+//@ func (*utils.priorityQueue).Len
+//@ props C19
+//@ pure
+//@ requires [dyn] hdyn(pq.queue)
+//@ ensures [len] ret == len(qs(pq.queue))
+
+//@ func (*utils.priorityQueue).Push
+//@ props C19
+//@ requires [wf] wfpq(pq)
+//@ requires [item] item != nil && !isnan(item.priority)
+//@ requires [nonneg] !(item.priority < 0)
+//@ ensures [wf] wfpq(pq)
+//@ ensures [len] len(qs(pq.queue)) == old(len(qs(pq.queue))) + 1
+//@ ensures [fresh-or-inplace] qs(pq.queue).ref == old(qs(pq.queue).ref) || fresh(qs(pq.queue))
+//@ modifies cell(pq.queue.(*minPriorityQueue)), cell(pq.queue.(*maxPriorityQueue)), mem(qs(pq.queue))
+
+//@ func (*utils.priorityQueue).Pop
+//@ props C19
+//@ trust floatorder
+//@ requires [wf] wfpq(pq)
+//@ requires [nonempty] len(qs(pq.queue)) > 0
+//@ ensures [wf] wfpq(pq)
+//@ ensures [len] len(qs(pq.queue)) == old(len(qs(pq.queue))) - 1
+//@ ensures [root] ret == old(qs(pq.queue)[0]) && ret != nil
+//@ ensures [extremal] forall k int :: 0 <= k && k < old(len(qs(pq.queue))) ==> old(!hless(pq.queue, k, 0))
+//@ uselemma old rootIsExtremal(pq.queue, len(qs(pq.queue)))
+//@ modifies cell(pq.queue.(*minPriorityQueue)), cell(pq.queue.(*maxPriorityQueue)), mem(qs(pq.queue))
+
+//@ func (*utils.priorityQueue).Peek
+//@ props C19
+//@ pure
+//@ requires [wf] wfpq(pq)
+//@ requires [nonempty] len(qs(pq.queue)) > 0
+//@ ensures [root] ret == qs(pq.queue)[0] && ret != nil
+
+//@ func (*utils.priorityQueue).ToSlice
+//@ props C19
+//@ pure
+//@ requires [dyn] hdyn(pq.queue)
+//@ ensures [alias] ret == qs(pq.queue)
+
+// Reverse, from the statement: same items, opposite order, and the source keeps its contents and ordering.
+//@ func (*utils.priorityQueue).Reverse
+//@ props C19
+//@ requires [wf] wfpq(pq)
+//@ ensures [result-wf] istype(ret, *priorityQueue) && ret.pay != 0 && wfpq(ret.(*priorityQueue))
+//@ ensures [opposite] isMin(ret.(*priorityQueue).queue) == isMax(pq.queue)
+//@ ensures [samelen] len(qs(ret.(*priorityQueue).queue)) == len(qs(pq.queue))
+//@ ensures [independent] fresh(qs(ret.(*priorityQueue).queue)) && fresh(ret.(*priorityQueue)) && fresh(ret.(*priorityQueue).queue.(*minPriorityQueue))
+//@ ensures [source-intact] wfpq(pq) && qs(pq.queue) == old(qs(pq.queue)) && forall k int :: qs(pq.queue)[k] == old(qs(pq.queue)[k])
+//@ modifies nothing
+
+//@ spec pushable(items []*PriorityQueueItem) bool = forall i int :: 0 <= i && i < len(items) ==> items[i] != nil && !isnan(items[i].priority) && !(items[i].priority < 0)
+
+//@ func utils.initializePriorityQueue
+//@ props C19
+//@ requires [dyn] hdyn(queue)
+//@ requires [items] itemsOK(queue, len(qs(queue)))
+//@ requires [pushable] pushable(items)
+//@ requires [noalias] len(items) > 0 ==> items.ref != qs(queue).ref
+//@ ensures [result] istype(ret, *priorityQueue) && ret.pay != 0 && fresh(ret.(*priorityQueue)) && ret.(*priorityQueue).queue == queue
+//@ ensures [wf] wfh(queue)
+//@ ensures [len] len(qs(queue)) == old(len(qs(queue))) + len(items)
+//@ ensures [noitems] len(items) == 0 ==> qs(queue) == old(qs(queue)) && forall k int :: k >= len(qs(queue)) ==> qs(queue)[k] == old(qs(queue)[k])
+//@ ensures [fresh-or-inplace] qs(queue).ref == old(qs(queue).ref) || fresh(qs(queue))
+//@ modifies cell(queue.(*minPriorityQueue)), cell(queue.(*maxPriorityQueue)), mem(qs(queue))
+//@ loop 1
+//@ invariant [range] 0 - 1 <= rangeindex && rangeindex < len(items) || (len(items) == 0 && rangeindex == 0 - 1)
+//@ invariant [wf] wfh(queue)
+//@ invariant [noalias] len(items) > 0 ==> items.ref != qs(queue).ref
+//@ invariant [itemsfixed] forall i int :: 0 <= i && i < len(items) ==> items[i] == old(items[i])
+//@ invariant [len] len(qs(queue)) == old(len(qs(queue))) + rangeindex + 1
+//@ invariant [noitems] len(items) == 0 ==> qs(queue) == old(qs(queue)) && forall k int :: k >= len(qs(queue)) ==> qs(queue)[k] == old(qs(queue)[k])
+//@ invariant [fresh-or-inplace] qs(queue).ref == old(qs(queue).ref) || fresh(qs(queue))
+
+//@ func utils.NewMinPriorityQueue
+//@ props C19
+//@ requires [pushable] pushable(items)
+//@ ensures [result] istype(ret, *priorityQueue) && ret.pay != 0 && fresh(ret.(*priorityQueue)) && wfpq(ret.(*priorityQueue))
+//@ ensures [kind] isMin(ret.(*priorityQueue).queue)
+//@ ensures [len] len(qs(ret.(*priorityQueue).queue)) == len(items)
+//@ ensures [fresh] fresh(qs(ret.(*priorityQueue).queue)) || len(items) == 0
+//@ modifies nothing
+
+//@ func utils.NewMaxPriorityQueue
+//@ props C19
+//@ requires [pushable] pushable(items)
+//@ ensures [result] istype(ret, *priorityQueue) && ret.pay != 0 && fresh(ret.(*priorityQueue)) && wfpq(ret.(*priorityQueue))
+//@ ensures [kind] isMax(ret.(*priorityQueue).queue)
+//@ ensures [len] len(qs(ret.(*priorityQueue).queue)) == len(items)
+//@ ensures [fresh] fresh(qs(ret.(*priorityQueue).queue)) || len(items) == 0
+//@ modifies nothing
